@@ -37,7 +37,8 @@ EXTRA_TARGETS = ["Model/UncertCases.v", "Model/MCCases.v"]
 TRUSTED = ["Model/Uncert.v hand-written validation model, tied by correspondence",
            "Model/MC.v find_mode (C16's hand-written model of utils.find_mode_and_uncertainty), tied here by the same direct calls "
            "as in C16; theorems C14_mode_uncertainty, C14_mode_uncertainty_of_samples"]
-ASSUMPTIONS = ["arguments are ints, bools, finite floats, None, strings, lists of those (no NaN/inf, no numpy scalars)",
+ASSUMPTIONS = ["model and correspondence: arguments are ints, bools, finite floats, None, strings, lists of those (no NaN/inf); numpy "
+               "scalars, Fraction and the keyword spellings of the constructor are exercised by the oracle only",
                "the propagated uncertainty of a calculated quantity is non-negative when it is created (C01/C02)"]
 
 HEADER = ("From Coq Require Import List ZArith QArith Bool String.\nImport ListNotations.\nOpen Scope string_scope.\n"
